@@ -255,6 +255,28 @@ class VStrRep(V):
         self.prefix, self.unit, self.count = prefix, unit, count
 
 
+class VAbsList(V):
+    """A Python list whose elements are abstracted away: only the number of elements is tracked (a z3 Int).
+    Used for lists of objects / byte strings that a cut loop grows (LoopSpec.field_types / var_types = 'abslist');
+    reading an element is Unsupported."""
+
+    def __init__(self, n):
+        self.n = n
+
+    def len(self):
+        return VInt(self.n)
+
+    def mutate_(self, ex, name, args, st, line):
+        if name == 'append' and len(args) == 1:
+            return [], (st, VAbsList(self.n + 1), VNone())
+        raise Unsupported('%s on an abstracted list (line %d)' % (name, line))
+
+    __hash__ = None
+
+    def __repr__(self):
+        return 'VAbsList(%s)' % self.n
+
+
 class VTupSeq(V):
     """Python list (symbolic length) of equal-arity tuples of ints, e.g. [(hash, sig), ...]:
     one Seq column per tuple position; all columns have the same length (assumed where a fresh
@@ -458,6 +480,8 @@ def truthy(v):
         return z3.BoolVal(len(v.items) > 0)
     if isinstance(v, VTupSeq):
         return slen(v.cols[0]) > 0
+    if isinstance(v, VAbsList):
+        return v.n > 0
     if isinstance(v, VStr):
         return z3.BoolVal(len(v.s) > 0)
     if isinstance(v, VDict):
@@ -809,6 +833,8 @@ def fresh_like(v, base):
         return VOpaque(z3.Const(fresh_name(base), Val))
     if isinstance(v, VTuple):
         return VTuple([fresh_like(x, base) for x in v.items])
+    if isinstance(v, VAbsList):
+        return VAbsList(z3.Int(fresh_name(base + '.n')))        # the creator assumes n >= 0
     if isinstance(v, VTupSeq):
         # NOTE: the creator must assume .same_len() for the fresh value
         return VTupSeq([z3.Const(fresh_name('%s.%d' % (base, i)), Seq) for i in range(v.arity)], v.pytype)
@@ -864,4 +890,6 @@ def same_value(a, b):
         return a.d is b.d
     if isinstance(a, VTupSeq):
         return a.arity == b.arity and all(x.eq(y) for x, y in zip(a.cols, b.cols))
+    if isinstance(a, VAbsList):
+        return a.n.eq(b.n)
     return a is b
